@@ -232,7 +232,7 @@ impl WordShape {
         self
     }
 }
-// @item rust/core/src/tokenization/word.rs :: defaults Word as WordShape::{len}
+// @item rust/core/src/tokenization/word.rs :: defaults Word as WordShape::{len,is_empty}
 impl WordShape {
     fn len(&self) -> (ret: usize)
         requires self.slice.0 <= self.slice.1,
@@ -240,6 +240,12 @@ impl WordShape {
     {
         let (left, right) = self.slice();
         right - left
+    }
+    fn is_empty(&self) -> (ret: bool)
+        ensures ret == (self.slice.1 == self.slice.0),
+    {
+        let (left, right) = self.slice();
+        right == left
     }
 }
 // @item rust/core/src/tokenization/word_split.rs :: struct WordSplit
